@@ -106,6 +106,7 @@ func (k msgServer) Complete(goCtx context.Context, msg *types.MsgComplete) (*typ
 	}
 
 	orderInProgress := order
+	saveOrder := true
 
 	if shard.Status == ordertypes.ShardMigrating {
 		// shard migrate
@@ -119,14 +120,11 @@ func (k msgServer) Complete(goCtx context.Context, msg *types.MsgComplete) (*typ
 		if err != nil {
 			return nil, err
 		}
-		orderList := []*ordertypes.Order{&order}
 		if oldShard.OrderId != order.Id {
 			// The order in progress is the one corresponding to the orderId field in oldShard,
 			// which is used to correctly calculate the next Migrate and ShardPledge
 			orderInProgress, _ = k.order.GetOrder(ctx, oldShard.OrderId)
-			orderList = append(orderList, &orderInProgress)
 		}
-		openedUnder := shard.OrderId
 		shard.OrderId = oldShard.OrderId
 		shard.RenewInfos = oldShard.RenewInfos
 		shard.CreatedAt = uint64(ctx.BlockHeight())
@@ -136,52 +134,56 @@ func (k msgServer) Complete(goCtx context.Context, msg *types.MsgComplete) (*typ
 			return nil, err
 		}
 		k.order.RemoveShard(ctx, oldShard.Id)
-		if len(oldShard.RenewInfos) > 1 {
-			for i := 0; i < len(oldShard.RenewInfos)-1; i++ {
-				order, _ := k.order.GetOrder(ctx, oldShard.RenewInfos[i].OrderId)
-				orderList = append(orderList, &order)
-			}
+
+		// Bring the shard lists of ALL orders of this model in line with the hand-over. Renewal
+		// orders copy the list of the order they renew, and shards of one order can run on offset
+		// periods, so the old and the new shard may be listed by orders other than the one named in
+		// the message, the one in progress and the queued renewals. Afterwards nobody lists the old
+		// shard, and the new shard is listed once by exactly the orders it belongs to: the order in
+		// progress and its queued renewals. An order that lists nothing any more is removed.
+		belongs := map[uint64]bool{shard.OrderId: true}
+		for _, info := range shard.RenewInfos {
+			belongs[info.OrderId] = true
 		}
-		for i, order := range orderList {
+		seen := map[uint64]bool{}
+		for _, id := range append([]uint64{order.Id, shard.OrderId}, meta.Orders...) {
+			if seen[id] {
+				continue
+			}
+			seen[id] = true
+			o, found := k.order.GetOrder(ctx, id)
+			if !found {
+				continue
+			}
 			newShards := make([]uint64, 0)
 			listed := false
-			for _, id := range order.Shards {
-				if id == shard.Id {
+			for _, sid := range o.Shards {
+				if sid == oldShard.Id {
+					continue
+				}
+				if sid == shard.Id {
+					if !belongs[o.Id] || listed {
+						continue
+					}
 					listed = true
 				}
-				if id != oldShard.Id {
-					newShards = append(newShards, id)
-				}
+				newShards = append(newShards, sid)
 			}
-			// first order has set new shard in shards in migrate, and so has every
-			// renewal order created since then: never list the new shard twice
-			if i > 0 && !listed {
+			if belongs[o.Id] && !listed {
 				newShards = append(newShards, shard.Id)
 			}
-			order.Shards = newShards
-			k.order.SetOrder(ctx, *order)
-		}
-		// the migration may have been opened under an order whose own period has ended since (the
-		// old shard has rolled over to a renewal): that order is none of the above and must not go
-		// on listing the new shard, which would be a dangling reference after the next hand-over
-		stale := true
-		for _, o := range orderList {
-			if o.Id == openedUnder {
-				stale = false
-			}
-		}
-		if staleOrder, found := k.order.GetOrder(ctx, openedUnder); stale && found {
-			keep := make([]uint64, 0)
-			for _, id := range staleOrder.Shards {
-				if id != shard.Id && id != oldShard.Id {
-					keep = append(keep, id)
+			if len(newShards) == 0 {
+				k.order.RemoveOrder(ctx, o.Id)
+				if o.Id == order.Id {
+					// the order named in the message was only a stale listing of the hand-over
+					saveOrder = false
 				}
+				continue
 			}
-			if len(keep) == 0 {
-				k.order.RemoveOrder(ctx, staleOrder.Id)
-			} else {
-				staleOrder.Shards = keep
-				k.order.SetOrder(ctx, staleOrder)
+			o.Shards = newShards
+			k.order.SetOrder(ctx, o)
+			if o.Id == order.Id {
+				order = o
 			}
 		}
 	} else {
@@ -221,7 +223,9 @@ func (k msgServer) Complete(goCtx context.Context, msg *types.MsgComplete) (*typ
 	amount := sdk.NewCoin(order.Amount.Denom, order.Amount.Amount.QuoRaw(int64(order.Replica)))
 	k.node.IncreaseReputation(ctx, msg.Provider, float32(amount.Amount.Int64()))
 
-	k.order.SetOrder(ctx, order)
+	if saveOrder {
+		k.order.SetOrder(ctx, order)
+	}
 
 	return &types.MsgCompleteResponse{}, err
 }
